@@ -420,8 +420,22 @@ func c13Verifier(p *Prog) []*ssa.Function {
 // descriptor from a response: param *http.Response, results (Descriptor, error).
 func c13DescriptorGenerators(p *Prog) []*ssa.Function {
 	return c13FuncsWhere(p, c13PkgRemote, func(f *ssa.Function) bool {
-		return f.Parent() == nil && c13HasParam(f, c13PkgHTTP, "Response") &&
-			c13ResultsAre(f, [2]string{c13PkgOCI, "Descriptor"}, [2]string{"", "error"})
+		if !(f.Parent() == nil && c13HasParam(f, c13PkgHTTP, "Response") &&
+			c13ResultsAre(f, [2]string{c13PkgOCI, "Descriptor"}, [2]string{"", "error"})) {
+			return false
+		}
+		// it builds the descriptor itself (a dispatcher choosing between a generator and Resolve is not one)
+		builds := false
+		AllInstrs(f, func(in ssa.Instruction) {
+			if st, ok := in.(*ssa.Store); ok {
+				if fa, ok := st.Addr.(*ssa.FieldAddr); ok && c13IsNamed(fa.X.Type(), c13PkgOCI, "Descriptor") {
+					if n := c13FieldNameOf(fa.X.Type(), fa.Field); n == "Size" || n == "Digest" {
+						builds = true
+					}
+				}
+			}
+		})
+		return builds
 	})
 }
 
@@ -531,7 +545,7 @@ func c13R2(c *Ctx) {
 			if n < nDirect {
 				c13ExpectedFromParam(c, RV, key, f, v)
 			} else {
-				r := ErrFlow(v, ErrFlowOpts{})
+				r := c13ErrFlow(v, ErrFlowOpts{})
 				c.Check(RP, key, v.Pos(), r.OK, r.How+r.Detail)
 			}
 		}
@@ -579,7 +593,7 @@ func c13R2(c *Ctx) {
 			c.Violation(RM, keyM, badM.Ret.Pos(), fmt.Sprintf("a path reaches the return at %s without the parsed Content-Type having been found equal to target.MediaType", c.P.Pos(badM.Ret.Pos())))
 		}
 		for _, p := range CallsTo(f, "mime.ParseMediaType") {
-			r := ErrFlow(p, ErrFlowOpts{})
+			r := c13ErrFlow(p, ErrFlowOpts{})
 			c.Check(RP, FnName(f)+"|mime.ParseMediaType", p.Pos(), r.OK, r.How+r.Detail)
 		}
 	}
@@ -598,7 +612,7 @@ func c13R2(c *Ctx) {
 	for _, f := range c.P.FuncsOfPkg(c13PkgRemote) {
 		for _, t := range targets {
 			for n, call := range c13CallsToFn(f, t) {
-				r := ErrFlow(call, ErrFlowOpts{})
+				r := c13ErrFlow(call, ErrFlowOpts{})
 				c.Check(RP, fmt.Sprintf("%s|%s#%d", FnName(f), FnName(t), n+1), call.Pos(), r.OK, r.How+r.Detail)
 			}
 		}
@@ -703,7 +717,7 @@ func c13VerifierBody(c *Ctx, rule string, V *ssa.Function) {
 	c.Check(rule, vn+"|nil-only-if-absent-or-equal", V.Pos(), bad == nil && len(eq) > 0,
 		ifelse(bad == nil && len(eq) > 0, "every nil return passes `header absent` or `parsed digest == expected`",
 			"the verifier can return nil although the Docker-Content-Digest header is present and was not found equal to the expected digest"))
-	r := ErrFlow(p, ErrFlowOpts{})
+	r := c13ErrFlow(p, ErrFlowOpts{})
 	c.Check(rule, vn+"|parse-failure-is-error", p.Pos(), r.OK, r.How+r.Detail)
 }
 
@@ -866,7 +880,7 @@ func c13Generator(c *Ctx, RL, RG, RP string, g, V *ssa.Function) {
 	}
 	c.Check(RG, gn+"|fields", g.Pos(), okFields, ifelse(okFields, "Descriptor.Digest is the content digest and Descriptor.Size the response Content-Length", "the generated descriptor's Digest/Size are not the verified content digest / the response length"))
 	for _, p := range CallsTo(g, c13PkgDigest+".Parse", "digest.Parse") {
-		r := ErrFlow(p, ErrFlowOpts{})
+		r := c13ErrFlow(p, ErrFlowOpts{})
 		c.Check(RP, gn+"|digest.Parse", p.Pos(), r.OK, r.How+r.Detail)
 	}
 	for _, call := range Calls(g, func(string) bool { return true }) {
@@ -874,15 +888,15 @@ func c13Generator(c *Ctx, RL, RG, RP string, g, V *ssa.Function) {
 		if h == nil || !inModule(h) || len(h.Blocks) == 0 || !c13ReturnsHeaderDigest(h, 2) || ErrResultIndex(h.Signature) < 0 {
 			continue
 		}
-		r := ErrFlow(call, ErrFlowOpts{})
+		r := c13ErrFlow(call, ErrFlowOpts{})
 		c.Check(RP, gn+"|"+FnName(h), call.Pos(), r.OK, r.How+r.Detail)
 		for _, p := range CallsTo(h, c13PkgDigest+".Parse", "digest.Parse") {
-			r := ErrFlow(p, ErrFlowOpts{})
+			r := c13ErrFlow(p, ErrFlowOpts{})
 			c.Check(RP, FnName(h)+"|digest.Parse", p.Pos(), r.OK, r.How+r.Detail)
 		}
 	}
 	for _, k := range calc {
-		r := ErrFlow(k, ErrFlowOpts{})
+		r := c13ErrFlow(k, ErrFlowOpts{})
 		c.Check(RP, gn+"|"+CalleeName(k), k.Pos(), r.OK, r.How+r.Detail)
 	}
 }
@@ -1242,6 +1256,33 @@ func c13IsURLBuilder(g *ssa.Function) bool {
 // c13ProgForURL: the program under analysis (set by c13R4) for caller look-ups.
 var c13ProgForURL *Prog
 
+// c13URLHelperBusy guards the helper recursion of c13URLSource.
+var c13URLHelperBusy = map[*ssa.Function]bool{}
+
+// c13HelperYieldsLocation: the call is to an in-module helper every non-empty
+// string result of which is the response's Location (possibly with the port work-around).
+func c13HelperYieldsLocation(u *ssa.Call) bool {
+	h := StaticCallee(u)
+	if h == nil || !inModule(h) || len(h.Blocks) == 0 || h == u.Parent() || c13URLHelperBusy[h] || h.Signature.Results().Len() == 0 ||
+		!types.Identical(h.Signature.Results().At(0).Type(), types.Typ[types.String]) {
+		return false
+	}
+	c13URLHelperBusy[h] = true
+	defer delete(c13URLHelperBusy, h)
+	all, n := true, 0
+	for _, ra := range RetAtoms(h, 0) {
+		if sv, isC := constString(ra.Val); isC && sv == "" {
+			continue
+		}
+		n++
+		k2, p2, u2 := c13URLSource(ra.Val)
+		if u2 != nil || len(p2) > 0 || !(len(k2) == 1 && k2["location"]) {
+			all = false
+		}
+	}
+	return all && n > 0
+}
+
 // c13FieldSeen guards the field-store recursion of c13URLSource.
 var c13FieldSeen = map[int]bool{}
 
@@ -1381,6 +1422,10 @@ func c13URLSource(v ssa.Value) (kinds map[string]bool, params []*ssa.Parameter, 
 				kinds["next-link"] = true
 				continue
 			}
+			if call, ok := u.Tuple.(*ssa.Call); ok && u.Index == 0 && c13HelperYieldsLocation(call) {
+				kinds["location"] = true
+				continue
+			}
 			// the link handed back by a page fetcher parameter of a generic pagination driver
 			if call, ok := u.Tuple.(*ssa.Call); ok && u.Index == 0 && !call.Call.IsInvoke() && StaticCallee(call) == nil {
 				isFetcher := false
@@ -1450,6 +1495,10 @@ func c13URLSource(v ssa.Value) (kinds map[string]bool, params []*ssa.Parameter, 
 					kinds["builder"] = true
 					continue
 				}
+			}
+			if c13HelperYieldsLocation(u) {
+				kinds["location"] = true
+				continue
 			}
 			if CalleeName(u) == "(*net/url.URL).String" {
 				fromLoc := true
@@ -1907,7 +1956,7 @@ func c13Seek(c *Ctx) {
 			ok206 = false
 		}
 		for _, tc := range top {
-			if r := ErrFlow(tc, ErrFlowOpts{}); !r.OK {
+			if r := c13ErrFlow(tc, ErrFlowOpts{}); !r.OK {
 				ok206 = false
 			}
 		}
